@@ -55,6 +55,8 @@ def enumerate_cases(tier, scope):
     for fn in ('value', 'raise'):
         yield {'kind': 'rpc_plain', 'fn': fn}
         yield {'kind': 'rpc_plain', 'fn': fn, 'thread': True}
+    for through in ('other', 'again'):
+        yield {'kind': 'rewrap', 'through': through}
     for intent in ('play', 'pause', 'kill', 'other'):
         for paused in (False, True):
             for by_keyword in (False, True):
@@ -375,6 +377,49 @@ def _run_comm_thread(case, v):
         asyncio.set_event_loop(None)
 
 
+def _run_rewrap(case, v):
+    """wrap_communicator() on a communicator that is already wrapped: the same wrapper for the same loop, a wrapper for the
+    other loop otherwise - subscribers added through it run on the loop it was asked for."""
+    loop1, loop2 = StepLoop(), StepLoop()
+    asyncio.set_event_loop(loop1)
+    try:
+        inner = kiwipy.LocalCommunicator()
+        first = communications.wrap_communicator(inner, loop1)
+        again = communications.wrap_communicator(first, loop1)
+        other = communications.wrap_communicator(first, loop2)
+        if again is not first:
+            classes_note = 'rewrapped-for-the-same-loop'  # allowed (an equivalent wrapper), just noted
+            _ = classes_note
+        if other.loop() is not loop2:
+            v('rewrap-kept-the-old-loop', 'wrap_communicator(wrapped_for_loop1, loop2) returned a communicator that schedules on loop1')
+        ran_on = []
+
+        def rpc(_comm, msg):
+            ran_on.append('loop1' if asyncio.get_event_loop() is loop1 else 'loop2' if asyncio.get_event_loop() is loop2 else 'other')
+            return 'reply:' + msg
+
+        target = other if case['through'] == 'other' else again
+        want_loop = 'loop2' if case['through'] == 'other' else 'loop1'
+        target.add_rpc_subscriber(rpc, 'r1')
+        fut = inner.rpc_send('r1', 'hello')
+        for _ in range(6):
+            loop1.drain()
+            loop2.drain()
+            if fut.done() and not fut.cancelled() and fut.exception() is None and isinstance(fut.result(), kiwipy.Future):
+                fut = fut.result()
+        if ran_on != [want_loop]:
+            v('subscriber-on-wrong-loop', f'the subscriber added through the wrapper for {want_loop} ran on {ran_on}')
+        got = _state(fut)
+        if got[0] != 'result' or got[1] != 'reply:hello':
+            v('wrong-outcome', f'reply {got}')
+    finally:
+        for lp in (loop1, loop2):
+            for task_ in lp.all_tasks:
+                task_._log_destroy_pending = False
+            lp.shutdown()
+        asyncio.set_event_loop(None)
+
+
 def _run_rpc_plain(case, v):
     loop = StepLoop()
     asyncio.set_event_loop(loop)
@@ -553,6 +598,10 @@ def execute(case):
         _run_rpc_plain(case, v)
         nontrivial = case['fn'] != 'value' or bool(case.get('thread'))
         classes = ['rpc_plain:' + case['fn'] + (':thread' if case.get('thread') else '')]
+    elif kind == 'rewrap':
+        _run_rewrap(case, v)
+        nontrivial = True
+        classes = ['rewrap:' + case['through']]
     elif kind == 'bcast_reply':
         _run_bcast_reply(case, v)
         nontrivial = True
